@@ -51,27 +51,19 @@ def run(ctx):
                 continue
         eff.append((f, bb, t, meth))
     R.count('effective_transport_uses', len(eff))
-    # map_err calls whose closure builds a ChannelError, keyed by the call whose result they wrap
+    # every ChannelError built outside its own conversion impls: which call produced the error it wraps?
     tagged = {}
     for f, i, j, s in F.all_aggregates('ChannelError'):
-        if s['rv']['adt'] != 'ChannelError' or f.kind != 'Closure':
+        if s['rv']['adt'] != 'ChannelError':
+            continue
+        item = F.enclosing_item(f)
+        if item is not None and item.impl_of and item.impl_of.get('self_head') == 'ChannelError':
             continue
         v = s['rv']['variant']
-        for a in P.closure_sites().get(f.id, []):
-            pf = F.fns[a[1]]
-            dst = pf.blocks[a[2]]['stmts'][a[3]]['pl']['l']
-            for bb, t in pf.calls():
-                if not callee_is(t, 'Poll::map_err', 'Result::map_err'):
-                    continue
-                if not any(x['k'] in ('move', 'copy') and x['pl']['l'] == dst and not x['pl']['p'] for x in t['args'][1:]):
-                    continue
-                # the error wrapped is the closure's own argument (Arc::new(e))
-                er = P.root(P._field(('agg', f.id, i, j), 0, 0), stop_tags=())
-                arg_ok = bool(er) and all(r == ('param', f.id, 2) for r, _ in er)
-                recv = P.operand(pf, t['args'][0], at=bb)
-                for b2, t2 in pf.calls():
-                    if result_of(P, recv, ('call', pf.id, b2)):
-                        tagged.setdefault((pf.id, b2), []).append((v, arg_ok, pf, t))
+        for r, p in P.root(P._field(('agg', f.id, i, j), 0, 0), through_params='closures', inline=False):
+            ru = P.unbound(r)
+            if ru[0] == 'call':
+                tagged.setdefault((ru[1], ru[2]), []).append((v, True, f, s))
     per_request = None
     for f, bb, t, meth in eff:
         want = TAG[meth]
